@@ -258,11 +258,12 @@ class PanicEx(Exception):
 class PathCtx:
     """one decision-tree path: guards are answered from the script, then by default True"""
 
-    def __init__(self, script, oracle=None):
+    def __init__(self, script, oracle=None, standalone=False):
         self.script = list(script)
         self.trace = []  # (key, descr, decision)
         self.known = {}
         self.oracle = oracle
+        self.standalone = standalone   # not driven by explore(): a free decision would silently analyse one path only
 
     def decide(self, key, descr):
         if key in self.known:
@@ -273,6 +274,8 @@ class PathCtx:
                 self.known[key] = r
                 self.trace.append((key, descr, r, True))
                 return r
+        if self.standalone:
+            raise Unsupported("data-dependent branch (%s) in code analysed as straight-line" % descr)
         i = sum(1 for t in self.trace if not t[3])
         d = self.script[i] if i < len(self.script) else True
         self.known[key] = d
@@ -351,7 +354,12 @@ class DomA:
         return (a, b)
 
     def powi(self, a, n):
-        return a.pow(self.exponent(n))
+        try:
+            return a.pow(self.exponent(n))
+        except Unsupported:
+            # a general symbolic exponent: x^e = exp(e ln x)
+            from .poly import apply_fn
+            return apply_fn("exp", n * apply_fn("ln", a))
 
     powf = powi
 
@@ -413,7 +421,7 @@ class Interp:
     def __init__(self, facts, dom, ctx=None, hooks=None, max_depth=14, scalar_self=False, extern=None):
         self.F = facts
         self.dom = dom
-        self.ctx = ctx or PathCtx([])
+        self.ctx = ctx or PathCtx([], standalone=True)
         self.hooks = hooks or []
         self.max_depth = max_depth
         self.depth = 0
@@ -450,6 +458,12 @@ class Interp:
         self.calls += 1
         self.inlined.append(body["path"])
         env = {}
+        saved_float = getattr(self, "float_ctx", None)
+        imp = body.get("_impl")
+        if imp is not None:
+            st = self.F.ty(imp["self"])
+            if st.get("k") == "float" or st.get("n") in ("f32", "f64") or st.get("s") in ("f32", "f64"):
+                self.float_ctx = st.get("n") or st.get("s")
         try:
             params = body["params"]
             if len(params) != len(args):
@@ -463,6 +477,7 @@ class Interp:
                 return r.v
         finally:
             self.depth -= 1
+            self.float_ctx = saved_float
 
     def call_closure(self, clo, args, e=None):
         if isinstance(clo, FnV):
@@ -854,6 +869,8 @@ class Interp:
             x.p = nv.v
             return UNIT
         if name == "iter" and not rest:
+            if "0" in x.shape:
+                return IterV([])      # a matrix with a zero dimension has no elements
             return IterV([Sc(x.p)])
         if name in ("get_unchecked", "get_unchecked_mut") and len(rest) == 2:
             if name == "get_unchecked_mut":
@@ -1126,7 +1143,16 @@ class Interp:
                 if name == "U1" and c.get("path", "").startswith("nalgebra"):
                     return DimV("1")
                 if name in ("EPSILON",):
-                    return Sc(self.dom.named("EPS"))
+                    # the machine epsilon of the float type of the enclosing float instance is `EPS`; the epsilon of the OTHER
+                    # float type (or a concrete float's epsilon inside generic code) is a different number
+                    pth = c.get("path", "")
+                    ft = "f32" if "f32" in pth else ("f64" if "f64" in pth else None)
+                    cur = getattr(self, "float_ctx", None)
+                    if ft is None or ft == cur:
+                        return Sc(self.dom.named("EPS"))
+                    return Sc(self.dom.named("EPS_" + ft))
+                if name in ("MIN_POSITIVE", "MAX", "MIN", "INFINITY", "NEG_INFINITY", "NAN") and c.get("path", "").startswith(("core::f32", "core::f64", "std::f32", "std::f64")):
+                    return Sc(self.dom.named("F::" + name))
                 if name in FLOAT_CONSTS:
                     return Sc(self.dom.named(name))
                 if name in ("NDERIV", "LANES"):
